@@ -110,7 +110,8 @@ def run(ctx, f, rep):
             others = [short(e2.name) for j, e2 in pathq.calls(p) if short(e2.name) in ("shutdown", "clear_sync", "clear", "insert", "peer_disconnected", "drain", "retain", "is_empty", "backend") and
                       not ("TaskHandle" in e2.name)]
             sd = [(j, e2) for j, e2 in pathq.calls(p, "shutdown") if "TaskHandle" in e2.name]
-            miss = any(e[0] == "discr" and c == ("eq", 1) and e[1][0] in ("pure", "call") and short(e[1][1]) == "branch" and pathq.mentions_call(e[1], lambda y: short(y[1]) == "ok_or") is not None for (e, c, _, _) in p.conds)
+            # the removed entry was None: `match`, `if let`, `ok_or(..)?`, `ok_or_else(..)?` all decide the Option that remove returned
+            miss = pathq.option_decided(p, lambda y: y == ev.result) == 0
             if miss:
                 seen["miss"] += 1
                 nsb = p.ret is not None and "NoSuchBind" in show(p.ret)
